@@ -173,19 +173,19 @@ Qed.
 
 (** TryFrom<FBig<R,2>> / TryFrom<Repr<2>> for f32 / f64, any mode, whole exponent range *)
 Theorem fbig2_try_to_float_correct m s e : s <> 0 ->
-  conv_ok (fbig2_try_to_float P m s e) = exact_to_float f (fst (frac_of s e)) (snd (frac_of s e)).
+  conv_ok (fbig2_try_to_float_old P m s e) = exact_to_float f (fst (frac_of s e)) (snd (frac_of s e)).
 Proof.
   intros Hs.
   pose proof (normalize_spec 2 ltac:(lia) s e) as Hnz.
   destruct (normalize 2 s e) as [s0 e0] eqn:En.
   destruct Hnz as [_ Hnz]. destruct (Hnz Hs) as (Hs0 & Hodd & j & Hj & He0 & Es). subst e0.
   (* both sides depend on the normal form only *)
-  assert (E0 : fbig2_to_float P m s e = fbig2_to_float P m s0 (e + j)).
-  { unfold fbig2_to_float. rewrite En. rewrite (normalize_id 2 s0 (e + j)) by (assumption || lia). reflexivity. }
+  assert (E0 : fbig2_to_float_old P m s e = fbig2_to_float_old P m s0 (e + j)).
+  { unfold fbig2_to_float_old. rewrite En. rewrite (normalize_id 2 s0 (e + j)) by (assumption || lia). reflexivity. }
   assert (E1 : exact_to_float f (fst (frac_of s e)) (snd (frac_of s e)) =
                exact_to_float f (fst (frac_of s0 (e + j))) (snd (frac_of s0 (e + j)))).
   { unfold exact_to_float, ieee_rne. subst s. rewrite (ieee_round_dyadic_shift f MHalfEven s0 j e Hs0 Hj). reflexivity. }
-  unfold fbig2_try_to_float. rewrite E0, E1. clear E0 E1 En Es Hs Hnz.
+  unfold fbig2_try_to_float_old. rewrite E0, E1. clear E0 E1 En Es Hs Hnz.
   set (e1 := e + j). clearbody e1.
   destruct (Z.le_gt_cases (blen (Z.abs s0)) (MB P + 1)) as [Hshort|Hlong].
   - rewrite (fbig2_to_float_short_normalized P HMB HW HB HBp HT HU HN m s0 e1 Hodd Hshort).
@@ -194,7 +194,7 @@ Proof.
     unfold short_flag. destruct c; [reflexivity | |];
       destruct (blen (Z.abs s0) + e1 >? TOP_MAX P); destruct (b mod 2 ^ (W P - 1) =? inf_bits P); reflexivity.
   - destruct (odd_dyadic_cases s0 e1 Hodd) as (Clong & _). rewrite (Clong ltac:(lia)).
-    unfold fbig2_to_float. rewrite (normalize_id 2 s0 e1) by (assumption || lia).
+    unfold fbig2_to_float_old. rewrite (normalize_id 2 s0 e1) by (assumption || lia).
     destruct (repr_round_spec 2 ltac:(lia) (MB P + 1) m s0 e1 ltac:(lia) ltac:(rewrite dlen2_blen; lia)) as (a & Er & _).
     rewrite Er. destruct (normalize 2 _ _) as [s2 e2].
     destruct (into_float_internal P s2 e2) as [b fl]. destruct fl; cbn [fr_and_then];
@@ -222,7 +222,7 @@ Proof.
 Qed.
 
 Theorem fbig2_try_to_f32_correct m s e : s <> 0 ->
-  conv_ok (fbig2_try_to_float P32 m s e) = exact_to_float F32 (fst (frac_of s e)) (snd (frac_of s e)).
+  conv_ok (fbig2_try_to_float_old P32 m s e) = exact_to_float F32 (fst (frac_of s e)) (snd (frac_of s e)).
 Proof.
   intros. change F32 with (fmt_of P32).
   apply (fbig2_try_to_float_correct P32); [cbn; lia | cbn; lia | reflexivity | cbn; lia | reflexivity | reflexivity | right; reflexivity
@@ -230,7 +230,7 @@ Proof.
 Qed.
 
 Theorem fbig2_try_to_f64_correct m s e : s <> 0 ->
-  conv_ok (fbig2_try_to_float P64 m s e) = exact_to_float F64 (fst (frac_of s e)) (snd (frac_of s e)).
+  conv_ok (fbig2_try_to_float_old P64 m s e) = exact_to_float F64 (fst (frac_of s e)) (snd (frac_of s e)).
 Proof.
   intros. change F64 with (fmt_of P64).
   apply (fbig2_try_to_float_correct P64); [cbn; lia | cbn; lia | reflexivity | cbn; lia | reflexivity | reflexivity | left; reflexivity
@@ -393,8 +393,8 @@ Example try2_examples :
   rat_try_to_float P64 (-3) (2 ^ 1074) = COk (2 ^ 63 + 3) /\
   rat_try_to_float P32 (2 ^ 128) 1 = COutOfBounds /\
   float_try_to_rat P32 1069547520 = COk (3, 2) /\
-  fbig2_try_to_float P32 MUp 3 (-150) = CLossOfPrecision /\
-  fbig2_try_to_float P32 MUp 6 (-150) = COk 3 /\
+  fbig2_try_to_float_old P32 MUp 3 (-150) = CLossOfPrecision /\
+  fbig2_try_to_float_old P32 MUp 6 (-150) = COk 3 /\
   rat_try_to_prim 64 true 8 (-128) 1 = COk (-128) /\ rat_try_to_prim 64 false 8 (-1) 1 = COutOfBounds /\
   rat_to_int_asis (-22) 7 = (-3, (-1, 7)).
 Proof. vm_compute. repeat split; reflexivity. Qed.
